@@ -564,6 +564,10 @@ func (f *Frame) contractCall(c *ssa.CallCommon, ct *FuncContract, callee *ssa.Fu
 	// a function that makes no claim about panics (frame_only / may_panic) does not owe its callees'
 	// preconditions: their guarantees are then assumed only where those preconditions hold
 	frameOnly := ex.top != nil && (ex.top.FrameOnly || ex.top.MayPanic)
+	// pre_as_panic: the function under verification still claims that no panic escapes it, but does not
+	// establish its callees' preconditions: where one cannot be assumed the callee may panic (or return
+	// anything: its guarantees are assumed only under the precondition)
+	preAsPanic := ex.top != nil && ex.top.PreAsPanic && !frameOnly
 	preHolds := "true"
 	for _, r := range ct.Requires {
 		if mentions(r.Term, ghostNames) {
@@ -573,7 +577,7 @@ func (f *Frame) contractCall(c *ssa.CallCommon, ct *FuncContract, callee *ssa.Fu
 		if lab == "" {
 			lab = "pre"
 		}
-		if frameOnly {
+		if frameOnly || preAsPanic {
 			// frame-only verification: the callee's functional guarantees are used only where its preconditions hold
 			preHolds = and(preHolds, substSX(r.Term, envPre))
 			continue
@@ -615,6 +619,10 @@ func (f *Frame) contractCall(c *ssa.CallCommon, ct *FuncContract, callee *ssa.Fu
 	if ct.MayPanic {
 		mp := ex.decl(f.pfx+"maypanic", "Bool")
 		f.panicEdgeV(mp, "callee_may_panic", anchor, calleePV)
+	}
+	if preAsPanic && preHolds != "true" {
+		mp := ex.decl(f.pfx+"prepanic", "Bool")
+		f.panicEdgeV(ex.def(f.pfx+"nopre", "Bool", and(not(preHolds), mp)), "callee_requires_or_panics", anchor, calleePV)
 	}
 	// effects
 	if ct.HavocAll {
